@@ -60,3 +60,15 @@ def run(ctx):
         "trace validation uses errc capacity 101: one item may be in flight between the consumer's receive and its log entry",
         "io.EOF-class sentinels are delivered unwrapped (the code compares with ==); wrapped forms are not part of the statement",
     ]
+    # socket-level tier: the real AF_PACKET source on a wire where nothing matches the filter for 2.6 s: no error is reported, the scan
+    # ends after its exit delay
+    from checks import wire_tier as wt
+    n3, rej = wt.run_wire(ctx, select=lambda s: s["name"] == "quiet-wire", label="c20w", focus="errors")
+    wt.report(ctx, "C20", rej)
+    n4, rej = wt.run_wire(ctx, select=lambda s: s["name"] == "quiet-wire", label="c20d", focus="delay")
+    wt.report(ctx, "C20", rej)
+    # the receiver inside the real packet engine (SetupPacketEngine: real sender, receiver, error merger): a burst of 150..420 frames that
+    # fail processing while the sender is inside one write - all are processed and reported, the receiver never waits for the sender
+    from checks import c07
+    t3 = c07.pipeline_traces(ctx, free=0, big=0, cancel=0, procs=2 if ctx.tier == "quick" else 6, label="c20e")
+    n5, _ = vf.validate_runs(ctx, "PacketScanObsTrace", t3, keyfn=lambda run, evt: "C20:engine:%s:%s" % (evt.get("ev"), evt.get("what", "")), label="receive burst in the engine", timeout=1500)
